@@ -690,6 +690,8 @@ class Interp:
             r = self.equals(a, b)
             if op == "Eq":
                 return r
+            if is_z3(r) and r.sort() == U:
+                return self.uf("elementwise_not", r)
             return (not r) if isinstance(r, bool) else z3.Not(r)
         # ordering
         if not is_z3(a) and not is_z3(b):
@@ -719,6 +721,8 @@ class Interp:
             if a is None or b is None:
                 return False
             if (is_z3(a) and a.sort() == U) or (is_z3(b) and b.sort() == U):
+                if self.models.get("opaque_elementwise_eq") and not (is_z3(a) and is_z3(b) and a.sort() == b.sort()):
+                    return self.models["opaque_elementwise_eq"](self, a, b)
                 if isinstance(a, (str, tuple, list, dict)) or isinstance(b, (str, tuple, list, dict)) or (is_z3(a) and is_z3(b)):
                     return self.to_U(a) == self.to_U(b)
                 raise Unsupported("== on opaque and number")
@@ -804,6 +808,13 @@ class Interp:
             if name in v.f:
                 return v.f[name]
             if isinstance(v.cls, RepoClass):
+                if name == "_replace" and "NamedTuple" in {x.split(".")[-1] for x in v.cls.lib_base_names(self)}:
+                    def _replace(ip2, **kw):
+                        bad = [k for k in kw if k not in v.f]
+                        if bad:
+                            raise PyRaise("ValueError", (f"unexpected field names {bad}",))
+                        return Obj(v.cls, {**v.f, **kw}, tag=v.tag)
+                    return PyFn(_replace, "NamedTuple._replace")
                 return self.class_attr(v, v.cls, name, node)
             raise PyRaise("AttributeError", (name,), node)
         if isinstance(v, SuperProxy):
